@@ -368,6 +368,16 @@ pub fn check_output(model: &Model, bytes: &[u8]) -> Result<Vec<Mismatch>, String
                         "import.type",
                         format!("{}/{}: {:?} vs requested {:?}", i.spec.module, i.spec.name, o.kind, i.spec.kind),
                     ));
+                } else if let (true, ImpKind::Func(a), ImpKind::Func(b)) = (i.added, &o.kind, &i.spec.kind) {
+                    // an import made through the API carries the type ID the caller gave (types keep their
+                    // index, C13): a structurally equal duplicate at another index is not what was asked for
+                    if a != b {
+                        mm.push(Mismatch::new(
+                            "entity_changed",
+                            "import.type",
+                            format!("{}/{}: type index {a} although type ID {b} was given (structurally equal types)", i.spec.module, i.spec.name),
+                        ));
+                    }
                 }
             }
         }
